@@ -98,12 +98,16 @@ Lemma global_id_spec n s id s' :
 Proof.
   unfold global_id, bind, handle_from_bytes_m.
   destruct (nm_find (handle_of_bytes n) (cs_ids s)) as [id0|] eqn:Ef.
-  - destruct (nm_find _ (cs_names s)); [|destruct (ht_entry_hangs (cs_names s)); [discriminate|]];
+  - destruct (nm_find _ (cs_names s)) as [nm|];
+      [unfold name_checked; destruct (global_name_checked && negb (str_eqb nm n)); [discriminate|]
+      |destruct (ht_entry_hangs (cs_names s)); [discriminate|]];
       intros E; injection E as <- <-; cbn; repeat split; auto; apply sub_refl.
   - destruct (ht_entry_hangs (cs_ids s)); [discriminate|].
     assert (Hsub : sub (cs_ids s) (nm_insert (handle_of_bytes n) (cs_next_var s) (cs_ids s))).
     { intros h x Hx. rewrite nm_find_insert. destruct (N.eqb_spec h (handle_of_bytes n)) as [->|]; [congruence | exact Hx]. }
-    destruct (nm_find _ (cs_names s)); [|destruct (ht_entry_hangs (cs_names s)); [discriminate|]];
+    destruct (nm_find _ (cs_names s)) as [nm|];
+      [unfold name_checked; destruct (global_name_checked && negb (str_eqb nm n)); [discriminate|]
+      |destruct (ht_entry_hangs (cs_names s)); [discriminate|]];
       intros E; injection E as <- <-; cbn; repeat split; auto; apply nm_find_insert_same.
 Qed.
 
